@@ -414,6 +414,7 @@ func runSite(mode string) sim.RigFunc {
 		put("pub/a.txt", []byte("PUB-A-CONTENT\n"))
 		put("pub/b.txt", bytes.Repeat([]byte("PUB-B-CONTENT\n"), 500))
 		os.Symlink("a.txt", filepath.Join(r.root, "pub", "link-to-a"))
+		os.Chtimes(filepath.Join(r.root, "pub"), fixed, fixed) // (the archive records the directory's time: keep it reproducible)
 		// static fixtures with precompressed siblings that are valid encodings of the original
 		for _, f := range []string{"static/a.txt", "static/b.html", "static/c.css"} {
 			content := bytes.Repeat([]byte("STATIC:"+f+":0123456789abcdef\n"), 20+st.Draw(60))
@@ -937,7 +938,7 @@ func (r *siteRig) hostileRequest(q *sreq) {
 
 func (r *siteRig) addConn(rs []*sreq) {
 	st := r.st
-	h := &hclient{id: len(r.conns), w: r.w, ip: "127.0.0.1", opaque: r.errVisible}
+	h := &hclient{id: len(r.conns), w: r.w, ip: "127.0.0.1", opaque: r.errVisible || r.archive}
 	for j, q := range rs {
 		q.conn, q.idx = h, j
 		var b strings.Builder
